@@ -9,6 +9,43 @@ From V Require Import Base NameMatch Chart Exec Large LargeLemmas Spec Legal Set
   LegalHistBase LegalHistEntry LegalHistStep MicroConformEntry RunConformInitialBase RunConformInitialSpec.
 Local Open Scope nat_scope.
 
+(* defaultHistoryContent is a table: an assignment for a parent replaces an earlier one (Spec.add_descendants) *)
+Definition hc_put (p : nat * nat) (l : list (nat * nat)) : list (nat * nat) := p :: filter (fun q => negb (fst q =? fst p)) l.
+Definition hc_ins (l acc : list (nat * nat)) : list (nat * nat) := fold_left (fun a p => hc_put p a) l acc.
+
+Lemma hc_ins_app l1 l2 acc : hc_ins (l1 ++ l2) acc = hc_ins l2 (hc_ins l1 acc).
+Proof. unfold hc_ins. apply fold_left_app. Qed.
+
+Lemma hc_put_keys p l : NoDup (map fst l) -> NoDup (map fst (hc_put p l)).
+Proof.
+  intros Hl. unfold hc_put. cbn [map]. constructor.
+  - intros Hin. apply in_map_iff in Hin as (q & E & Hq). apply filter_In in Hq as [_ Hq]. apply negb_true_iff, Nat.eqb_neq in Hq. congruence.
+  - clear -Hl. induction l as [|q r IH]; cbn [filter map]; [constructor|]. cbn [map] in Hl. inversion Hl as [|? ? Hq Hr]; subst.
+    destruct (negb (fst q =? fst p)); [|now apply IH]. cbn [map]. constructor; [|now apply IH].
+    intros Hin. apply Hq. apply in_map_iff in Hin as (q' & E & Hq'). apply filter_In in Hq' as [Hq' _]. rewrite <- E. now apply in_map.
+Qed.
+
+Lemma hc_ins_keys l : forall acc, NoDup (map fst acc) -> NoDup (map fst (hc_ins l acc)).
+Proof. induction l as [|p r IH]; intros acc Ha; [exact Ha|]. cbn [hc_ins fold_left]. apply IH. now apply hc_put_keys. Qed.
+
+(* when equal keys carry equal values the table holds what was assigned *)
+Definition hc_fun (L : list (nat * nat)) : Prop := forall q1 q2, In q1 L -> In q2 L -> fst q1 = fst q2 -> q1 = q2.
+
+Lemma hc_ins_In l : forall acc, hc_fun (l ++ acc) -> forall q, In q (hc_ins l acc) <-> In q l \/ In q acc.
+Proof.
+  induction l as [|x r IH]; intros acc HF q; [cbn; tauto|]. cbn [hc_ins fold_left]. fold (hc_ins r (hc_put x acc)).
+  assert (Hput : forall z, In z (hc_put x acc) <-> z = x \/ In z acc).
+  { intros z. unfold hc_put. cbn [In]. rewrite filter_In. split.
+    - intros [E|[Hz _]]; [left; now symmetry | now right].
+    - intros [->|Hz]; [now left|]. destruct (Nat.eq_dec (fst z) (fst x)) as [E|Hne].
+      + left. symmetry. apply HF; [right; apply in_or_app; now right | now left | exact E].
+      + right. split; [exact Hz | now apply negb_true_iff, Nat.eqb_neq]. }
+  rewrite IH.
+  - rewrite Hput. cbn [In]. intuition.
+  - intros q1 q2 H1 H2. apply HF; cbn [app In]; [apply in_app_or in H1 as [H1|H1] | apply in_app_or in H2 as [H2|H2]];
+      try (right; apply in_or_app; now left); apply Hput in H1 || apply Hput in H2; intuition.
+Qed.
+
 Section HSpec.
 Variable c : fchart.
 Let n := nstates c.
@@ -338,16 +375,10 @@ Definition hc_one (s : nat) : list (nat * nat) :=
     end
   else [].
 
-Lemma rev_hc_one s : rev (hc_one s) = hc_one s.
-Proof.
-  unfold hc_one. destruct (is_history_state c s); [|reflexivity]. destruct (hv_get h s); [reflexivity|].
-  destruct (fs_trans (st c s)); [reflexivity|]. destruct (fs_parent (st c s)); reflexivity.
-Qed.
-
 Lemma AD_hist_unfold f s e : is_history_state c s = true -> add_descendants c (S f) h s e =
   match fs_parent (st c s) with
   | Some p =>
-    let e0 := {| e_enter := e_enter e; e_default := e_default e; e_histcontent := hc_one s ++ e_histcontent e |} in
+    let e0 := {| e_enter := e_enter e; e_default := e_default e; e_histcontent := hc_ins (hc_one s) (e_histcontent e) |} in
     fold_left (fun e x => add_ancestors c f h x (Some p) e) (res s)
               (fold_left (fun e x => add_descendants c f h x e) (res s) e0)
   | None => match hv_get h s with
@@ -358,9 +389,9 @@ Lemma AD_hist_unfold f s e : is_history_state c s = true -> add_descendants c (S
 Proof.
   intros Hh. cbn [add_descendants]. unfold res, hc_one, dflt_targets. rewrite Hh.
   destruct (hv_get h s) as [v|] eqn:Ev.
-  - destruct (fs_parent (st c s)) as [p|]; [|reflexivity]. cbn [app]. destruct e; reflexivity.
+  - destruct (fs_parent (st c s)) as [p|]; [|reflexivity]. cbn [hc_ins fold_left]. destruct e; reflexivity.
   - destruct (fs_trans (st c s)) as [|ti r]; destruct (fs_parent (st c s)) as [p|]; try reflexivity.
-    cbn [fold_left app]. destruct e; reflexivity.
+    cbn [fold_left hc_ins]. destruct e; reflexivity.
 Qed.
 
 Section Target.
@@ -392,13 +423,13 @@ Lemma target_hist s q e X : GIH X e -> is_history_state c s = true -> par s = So
   let e' := add_descendants c (spec_fuel c) h s e in
   GIH X e' /\ ext e e' /\ (forall g, In g (res s) -> In g (e_enter e')) /\
   (forall a g, In g (res s) -> Anc a g -> Anc q a -> In a (e_enter e')) /\
-  e_histcontent e' = hc_one s ++ e_histcontent e.
+  e_histcontent e' = hc_ins (hc_one s) (e_histcontent e).
 Proof.
   intros HG Hh Hq Hdq Hres Hown. pose proof (HB1 d G Hb) as Hgood.
   cbn zeta. unfold spec_fuel. replace (2 * Spec.n c + 4) with (S (2 * Spec.n c + 3)) by lia.
   rewrite (AD_hist_unfold _ s e Hh). unfold par in Hq. rewrite Hq. cbn zeta.
   set (f := 2 * Spec.n c + 3).
-  set (e0 := {| e_enter := e_enter e; e_default := e_default e; e_histcontent := hc_one s ++ e_histcontent e |}).
+  set (e0 := {| e_enter := e_enter e; e_default := e_default e; e_histcontent := hc_ins (hc_one s) (e_histcontent e) |}).
   assert (HG0 : GIH X e0).
   { destruct HG as [A1 A2 A3 A4]. constructor; cbn [e0 e_enter e_default]; auto. }
   assert (He0 : ext e e0) by (split; apply incl_refl).
@@ -443,13 +474,13 @@ Lemma targets_fold T : (forall s, In s T ->
   forall e, GIH (fun _ => False) e ->
   let e' := fold_left (fun e s => add_descendants c (spec_fuel c) h s e) T e in
   GIH (fun _ => False) e' /\ ext e e' /\ (forall s g, In s T -> In g (res s) -> In g (e_enter e')) /\
-  e_histcontent e' = rev (flat_map hc_one T) ++ e_histcontent e.
+  e_histcontent e' = hc_ins (flat_map hc_one T) (e_histcontent e).
 Proof.
-  induction T as [|s r IH]; intros HT e HG; cbn [fold_left flat_map rev app].
+  induction T as [|s r IH]; intros HT e HG; cbn [fold_left flat_map].
   - split; [exact HG|]. split; [apply ext_refl|]. split; [intros s g []|reflexivity].
   - assert (Hstep : GIH (fun _ => False) (add_descendants c (spec_fuel c) h s e) /\ ext e (add_descendants c (spec_fuel c) h s e) /\
                     (forall g, In g (res s) -> In g (e_enter (add_descendants c (spec_fuel c) h s e))) /\
-                    e_histcontent (add_descendants c (spec_fuel c) h s e) = hc_one s ++ e_histcontent e).
+                    e_histcontent (add_descendants c (spec_fuel c) h s e) = hc_ins (hc_one s) (e_histcontent e)).
     { destruct (HT s (or_introl eq_refl)) as [[Hps Hs]|(Hh & q & Hq & Hdq & Hres & Hown)].
       - destruct (target_plain s e _ HG Hps Hs) as (A & B' & C & D').
         split; [exact A|]. split; [exact B'|]. unfold res, hc_one. rewrite (proper_not_hist s Hps). split; [|exact D'].
@@ -459,7 +490,7 @@ Proof.
     destruct (IH (fun z Hz => HT z (or_intror Hz)) _ A1) as (A & B' & C & D').
     split; [exact A|]. split; [eapply ext_trans; eauto|]. split.
     + intros z g [<-|Hz] Hg; [apply (proj1 B'); now apply C1 | now apply (C z g)].
-    + rewrite D', D1. rewrite rev_app_distr, rev_hc_one, <- app_assoc. reflexivity.
+    + rewrite D', D1. now rewrite hc_ins_app.
 Qed.
 
 Lemma ctx_enter_h_ok T l e :
@@ -471,7 +502,7 @@ Lemma ctx_enter_h_ok T l e :
   (forall x, In x l <-> In x G) -> GIH (fun _ => False) e ->
   GIH (fun _ => False) (ctx_enter_h T l e) /\ ext e (ctx_enter_h T l e) /\
   (forall y, IC d G y -> In y (e_enter (ctx_enter_h T l e))) /\
-  e_histcontent (ctx_enter_h T l e) = rev (flat_map hc_one T) ++ e_histcontent e.
+  e_histcontent (ctx_enter_h T l e) = hc_ins (flat_map hc_one T) (e_histcontent e).
 Proof.
   intros HT Hcover Hl HG. pose proof (HB1 d G Hb) as Hgood. unfold ctx_enter_h.
   destruct (targets_fold T HT e HG) as (A1 & B1 & C1 & D1).
